@@ -133,14 +133,18 @@ def npz_files(ctx):
              and _str_const(nd.value.args[0]) == "mo_coeff.npz"]
     ctx.ob("KEYS-2", "mo_coeff.npz: the reader loads the key that is written", len(loads) == 1 and
            _str_const(loads[0].slice) == "mo_coeff", f"reads {[_str_const(l.slice) for l in loads]}", rd)
-    # both spin blocks written in every branch
-    for nd in ast.walk(pa.node):
-        pass
-    # spin slicing in the reader
-    src = ast.unparse(rd.node).replace(" ", "")
-    ok = all(s in src for s in ("mo_coeff[0][:,:nelec_sp[0]]", "mo_coeff[1][:,:nelec_sp[1]]")) and \
-        "mo_coeff[0][:,:nelec_sp[1]]" not in src and "mo_coeff[1][:,:nelec_sp[0]]" not in src
-    ctx.ob("PAIR-1", "_prep_afqmc: orbital block s is sliced with nelec_sp[s]", ok, "", rd)
+    # spin slicing in the reader:  X[s][:, :N[t]]  must have s == t  (name-independent)
+    pairs = []
+    for nd in ast.walk(rd.node):
+        if isinstance(nd, ast.Subscript) and isinstance(nd.value, ast.Subscript) and \
+                isinstance(nd.value.slice, ast.Constant) and nd.value.slice.value in (0, 1) and \
+                isinstance(nd.slice, ast.Tuple) and len(nd.slice.elts) == 2 and isinstance(nd.slice.elts[1], ast.Slice):
+            up = nd.slice.elts[1].upper
+            if isinstance(up, ast.Subscript) and isinstance(up.slice, ast.Constant) and up.slice.value in (0, 1):
+                pairs.append((nd.value.slice.value, up.slice.value, nd.lineno))
+    ok = len(pairs) >= 2 and all(a == b for a, b, _ in pairs) and {a for a, _, _ in pairs} == {0, 1}
+    ctx.ob("PAIR-1", "_prep_afqmc: orbital block s is sliced with the electron count of spin s", ok,
+           f"(block, count) index pairs {[(a, b) for a, b, _ in pairs]}", rd)
     # amplitudes
     amp = [s for s in saves if s[0] == "amplitudes.npz"]
     by_keys = {frozenset(s[1]): s for s in amp}
